@@ -718,14 +718,38 @@ def showBinding (ir : IR) (b : Binding) : String :=
   " attrs=" ++ ",".intercalate ((sortByKey b.attrs).map fun (i, a) => s!"{i}:{a.val}") ++
   " tys=" ++ ",".intercalate ((sortByKey b.tys).map fun (i, t) => s!"{i}:{t}")
 
+/-! ## the `pdl.pattern` operation: header + body
+
+The header (`benefit`, optional symbol name) is carried along but no function of the specification has access to it:
+what a SINGLE pattern does to a payload does not depend on its benefit (the benefit orders several patterns; 0 is the
+lowest priority, not "never applies") nor on its name (a label; the conversion names the rewriter function after it).
+Both real paths are run under generated headers and compared with this header-blind denotation. -/
+
+structure Header where
+  benefit : Nat := 1
+  sym : Option Nat := none
+  deriving DecidableEq, Repr, Inhabited
+
+structure PatternOp where
+  hdr : Header
+  body : Pattern
+  rw : List Action
+  deriving Inhabited
+
+def PatternOp.matchRoot (po : PatternOp) (ir : IR) (o : OpId) : Option Binding := PDL.matchRoot po.body ir o
+def PatternOp.rewriteAt (po : PatternOp) (ir : IR) (o : OpId) : Outcome := PDL.rewriteAt po.body po.rw ir o
+def PatternOp.driveW (po : PatternOp) (rev : Bool) (fuel : Nat) (ir : IR) : DOut := PDL.driveW po.body po.rw rev fuel ir
+
 structure State where
   pat : Option (Pattern × List Action) := none
   ir : Option IR := none
+  hdr : Header := {}
   deriving Inhabited
 
 /-- Lines: `pat <nats>` (pattern followed by the action list), `ir <nats>`, `match <pos>`, `apply <pos>`
 (`<pos>` = position of the candidate root operation), `closed` (no dangling uses in the stored IR),
-`drive <fuel>` / `driverev <fuel>` (greedy application by the walker, program order / `walk_reverse`). -/
+`drive <fuel>` / `driverev <fuel>` (greedy application by the walker, program order / `walk_reverse`),
+`hdr <benefit> <0 | sym+1>` (header of the `pdl.pattern` op for the following queries; `reset` restores the default). -/
 def lineStep (s : State) (line : String) : State × String :=
   match words line with
   | ["reset"] => ({}, "ok")
@@ -746,6 +770,10 @@ def lineStep (s : State) (line : String) : State × String :=
       | some (ir, []) => ({ s with ir := some ir }, "ok")
       | _ => (s, "bad-op")
     | none => (s, "bad-op")
+  | ["hdr", b, n] =>
+    match b.toNat?, n.toNat? with
+    | some b, some n => ({ s with hdr := { benefit := b, sym := if n = 0 then none else some (n - 1) } }, "ok")
+    | _, _ => (s, "bad-op")
   | ["closed"] =>
     match s.ir with
     | some ir => (s, showBool ir.closed)
@@ -753,8 +781,9 @@ def lineStep (s : State) (line : String) : State × String :=
   | [cmd, k] =>
     match s.pat, s.ir, k.toNat? with
     | some (p, rw), some ir, some k =>
+      let po : PatternOp := ⟨s.hdr, p, rw⟩
       if cmd = "drive" || cmd = "driverev" then
-        match driveW p rw (cmd = "driverev") k ir with
+        match po.driveW (cmd = "driverev") k ir with
         | .done ir' => (s, "done " ++ showIR ir' ++ (if ir'.closed then "" else " !dangling"))
         | .error => (s, "error")
         | .fuel => (s, "fuel")
@@ -762,11 +791,11 @@ def lineStep (s : State) (line : String) : State × String :=
       match ir.ops[k]? with
       | some x =>
         if cmd = "match" then
-          match matchRoot p ir x.id with
+          match po.matchRoot ir x.id with
           | some b => (s, "match " ++ showBinding ir b)
           | none => (s, "nomatch")
         else if cmd = "apply" then
-          match rewriteAt p rw ir x.id with
+          match po.rewriteAt ir x.id with
           | .nomatch => (s, "nomatch")
           | .error => (s, "error")
           | .done ir' => (s, showIR ir' ++ (if ir'.closed then "" else " !dangling"))
